@@ -49,11 +49,17 @@ def parse_output(text):
         res[cur] = (lines, 'driver-died')
     return res
 
+def _big_stack():
+    import resource
+    try: resource.setrlimit(resource.RLIMIT_STACK, (resource.RLIM_INFINITY, resource.RLIM_INFINITY))
+    except Exception: pass
+
 def _run_shard(args):
     exe, casefile, own, shared, extra, env, timeout = args
     try:
+        # the extracted model recurses on lists (not tail-recursive): give it the whole stack
         r = subprocess.run([exe, casefile, own, shared] + extra, stdout=subprocess.PIPE, stderr=subprocess.PIPE,
-                           env=env, timeout=timeout)
+                           env=env, timeout=timeout, preexec_fn=_big_stack if 'model_main' in exe else None)
         return r.stdout.decode('latin-1'), r.stderr.decode('latin-1', 'replace')
     except subprocess.TimeoutExpired as e:
         return (e.stdout or b'').decode('latin-1'), 'TIMEOUT'
